@@ -74,7 +74,7 @@ pub fn run(ctx: &Arc<Ctx>) {
     ctx.set_rule("for each base signature (quick 12, thorough 60: keys x nonces x IDs x messages from the C03 alphabets, made by the reference signer): all 512 single-bit flips of r||s; r,s substituted by {0,1,n-1,n,n+1,2^256-1}, s=n-r, swapped; (r+delta, s') completed with the private key so that the verification point is unchanged, delta in {+-1, +-(p-n), +-(2^256-n), +-(2^256-p)}; the public key held as a Jacobian key object (Z in {2, p-1, seeded}); message bit flipped / byte appended / truncated; ID changed (also to normalisation-equivalent spellings: trailing / leading white space, line end, NUL, case; and to IDs longer than 8191 bytes sharing the signer's prefix); key replaced by another key and by -P; every signature length 0..=130 as prefix/extension and constant fills; plus the product RxS of a 12-element boundary alphabet; pre-searched messages whose digest e is >= n; pre-searched signatures with r or s below 2^224 and their r+n / s+n aliases. Oracle: the reference verifier (and 'exactly 64 bytes'); library must return Err whenever it rejects — never Ok, never a panic — and Ok when it accepts.");
     let ds = scalar_alphabet(&n, ctx.seed, "c04d", 2);
     let ks = scalar_alphabet(&n, ctx.seed, "c04k", 1);
-    let nbase = ctx.tier.pick(12usize, 60);
+    let nbase = ctx.tier.pick(12usize, 160);
     // IDs are byte strings to the standard; the API takes &str, so non-ASCII IDs are multi-byte UTF-8
     let ids: Vec<Option<String>> = vec![None, Some("alice@example.com".into()), Some("".into()), Some("用户甲".into()), Some("alice@example.com\n".into()), Some("Alice@Example.com ".into())];
     let mut cases: Vec<Case> = Vec::new();
